@@ -43,10 +43,10 @@
   the driver; the harness holds the real output of every in-class document to
   `decided_class_bound`.
 -/
+import GoblVerif.Proofs.CalcErrorMore
 import GoblVerif.Spec.C01
 import GoblVerif.Generated.CalcFacts
 import GoblVerif.Proofs.CalcError
-import GoblVerif.Proofs.CalcErrorMore
 import GoblVerif.Proofs.NumX
 
 namespace GoblVerif.Props.C01
